@@ -287,6 +287,30 @@ NOT_APPLICABLE = {}
 PENDING = "check not built yet (framework under construction; DESIGN.md lists the planned rules)"
 
 
+
+# Rules added after the first round of independently seeded changes and defect triage (appended to the claim texts above)
+EXTRA = {
+    "C01": " Added: a quoted forward reference is never an operand of `|` (optional self-references are quoted as one union); the tag modules client.py imports are the ones written (grouping agreement shared with C07).",
+    "C02": " Added: colliding property names keep distinct fields (rename-until-unused pattern); the recursion context (depth override, allow_self_reference) is handed to every recursive parse call; no registration-vetoing flag is raised before the registration decision.",
+    "C03": " Added: the two composition resolvers (oneOf / anyOf copies) return the same results; type-array nullability is read from the document node at every sibling site.",
+    "C05": " Added: every declared media type passes the streaming classification in the loader; the handler's type-alias tests exclude what ModelVisitor's classification excludes (enums are classes).",
+    "C06": " Added: the error raised by the transport is built from plain reads (nothing that can itself raise); the alias classes stay importable for shared cores (shared-core predicate of C11 over symbolic layouts).",
+    "C07": " Added: str-enum options are compared by value; the tag grouping key is at least as coarse as the module/class names derived from a tag (character-class containment by string-shape interpretation).",
+    "C08": " Added: the terminal-state transition depends only on name and state; every declared schema ends up registered (registration rules shared with C02).",
+    "C09": " Added: compare-only generation compares the core for every layout in which it lies outside the client package (guard evaluated over symbolic layouts incl. textual-prefix siblings); the registry entry of a client is overwritten, never kept.",
+    "C10": " Added: the same diff-coverage rule; a write path built from the parent of a directory the function was given (a sibling write) is a violation.",
+    "C11": " Added: the import header of the regenerated alias file covers every base class the union of codes can need; string-prefix predicates are modelled by the path algebra.",
+    "C13": " Added: every EndpointVisitor is built over the schema registry (a mock signature otherwise differs for inline item types).",
+    "C14": " Added: the generated get_mapping() has one entry per discriminator value (written from the spec's mapping or an item-wise sequence of it, never from a re-keyed dict).",
+    "C15": " Added: json.dumps used as a Python-literal maker for spec text passes ensure_ascii=False (non-BMP characters survive); re-splitting is judged by provenance, escaping helpers are recognised by their bodies.",
+    "C16": " Added: the raw-dict fallback of union decoding applies to dict[str, Any] only (guard evaluated over {str, other} x {Any, other}).",
+    "C17": " Added: where plugin-added params/cookies are merged into the caller's value, that value is converted with dict() only under a type test.",
+    "C18": " Added: the joined data reaches the event unchanged (no strip / replace on it).",
+    "C19": " Added: the recursion context is threaded through every recursive parse (declaration-order independence); a strict JSON parse is selected by metadata, never by sniffing the text.",
+}
+ROBUST = (" Recognition is by role and shape (parameters, loop targets, single-definition chasing, metavariable patterns, polarity-normalised guards), not by local"
+          " variable names; where a function as written does not show a pattern, the same function with calls to helpers of its own module inlined is examined.")
+
 def main() -> int:
     props = [json.loads(l)["id"] for l in open(os.path.join(HERE, "properties.jsonl"))]
     checks = []
@@ -302,7 +326,7 @@ def main() -> int:
                     "evidence_file": f"/verif/evidence/{pid}.json",
                     "replay_cmd_template": f"./check {pid} --replay {{path}}",
                     "engine": "sa",
-                    "level_claimed": {"category": "other", "text": c["text"], "design_ref": c["ref"]},
+                    "level_claimed": {"category": "other", "text": c["text"] + EXTRA.get(pid, "") + ROBUST, "design_ref": c["ref"]},
                     "level_note": c.get("note", NOTE),
                     "technique": "static analysis: " + c["technique"],
                 }
